@@ -19,7 +19,9 @@ import Operon.Gen.QuorumConsts
   The colony itself (registration by name, `remove_agent` / `set_agent_weight` / `update_reliability` acting on the
   first member of a name, `votes_cast` / `correct_votes` bookkeeping, `update_all_reliability`) is modelled too.
 
-  Not modelled: console output, timing, statistics, callbacks, `enable_reliability_tracking=False`;
+  Which callback is handed the result is modelled (`callbackFor`); whether one is installed / raises and
+  `enable_reliability_tracking` live in the driver's object state (Drv/C06.lean).
+  Not modelled: console output, timing, the statistics counters (checked by the oracle against the results);
   `weighted_score` / `confidence_score` are computed but not part of the correspondence (floats).
 -/
 namespace Operon.Quorum
@@ -242,6 +244,17 @@ def aggregate (cfg : Cfg) (colony : Nat) (vs : List Vote) : Result :=
 /-- `run_vote`: one vote per colony member, then aggregation. -/
 def runVote (cfg : Cfg) (voters : List Voter) : Result :=
   aggregate cfg voters.length (collect voters)
+
+/-- the two callbacks of a quorum object -/
+inductive Callback where
+  | onReached   -- `on_quorum_reached`
+  | onFailed    -- `on_quorum_failed`
+  deriving Repr, DecidableEq
+
+/-- "Callbacks and logging" of `run_vote`: the result is handed to `on_quorum_reached` when it says reached, to
+    `on_quorum_failed` otherwise (if that callback is installed; an exception it raises leaves `run_vote` after the
+    vote has been recorded) -/
+def callbackFor (r : Result) : Callback := if r.reached then .onReached else .onFailed
 
 /-- `run_vote` raises `ZeroDivisionError` exactly when the count strategy divides by an empty colony. -/
 def runVoteRaises (cfg : Cfg) (voters : List Voter) : Bool :=
